@@ -59,6 +59,7 @@ pub fn target_worlds(rng: &mut Rng, cases: &[Case], n_worlds: usize, faulted: us
             sched: SchedSpec { policy: Policy::Random { p }, seed: rng.next_u64(), max_yields: 200_000 },
             files: vec![],
             monitors: monitors.iter().map(|s| s.to_string()).collect(),
+            fresh_threads: false,
         });
     }
     worlds
